@@ -36,6 +36,10 @@ pub struct Cfg {
     /// the objects inherit the session's OTI (no TransferConfig::oti); the session OTI is the scheme's
     #[serde(default)]
     pub inherit: bool,
+    /// session variant: 0 = base; 1 = FDT carousel by start-time interval, RFC 3926 profile, no SCT in
+    /// the FDT packets; 2 = FDT instance ids wrapping (start id 0xFFFFE), 16-bit TOIs starting at 65534
+    #[serde(default)]
+    pub sess_var: u8,
 }
 
 #[derive(Serialize, Deserialize, Clone, Debug)]
@@ -56,12 +60,14 @@ const POLLS: [u64; 4] = [0, 2000, 4000, 6000];
 pub fn prepare(c: &Cfg) -> Result<Prepared, String> {
     let (e, b, parity, len) = match c.scheme {
         Scheme::NoCode => (4u16, 2u16, 0u16, 11usize),
-        Scheme::Raptor => (2, 4, 1, 14),
+        Scheme::Raptor => (2, 4, 1, 15), // 8, 12, 16 symbols: blocks of 4 (blocks of 2 or 3 symbols are refused at add_object)
         _ => (4, 2, 1, 11),
     };
+    // a compressed length cannot be steered into blocks of 4: one large block instead
+    let b = if c.scheme == Scheme::Raptor && c.cenc != 0 { 64 } else { b };
     let mut objs = Vec::new();
     for j in 0..c.nobj {
-        let l = if c.with_empty && j == c.nobj - 1 { 0 } else { len + 2 * j };
+        let l = if c.with_empty && j == c.nobj - 1 { 0 } else { len + if c.scheme == Scheme::Raptor { 8 } else { 2 } * j };
         let mut o = ObjSpec::simple(l, 20 + j as u8);
         o.oti = if c.inherit { None } else { Some(OtiSpec::new(c.scheme, e, b, parity, c.inband)) };
         o.cenc = if l > 0 { c.cenc } else { 0 };
@@ -79,6 +85,19 @@ pub fn prepare(c: &Cfg) -> Result<Prepared, String> {
     s.interleave = c.interleave.max(1);
     s.fdt_cenc = c.fdt_cenc;
     s.queues = vec![(0, 2)];
+    match c.sess_var {
+        1 => {
+            s.fdt_carousel = Carousel::Interval(1000);
+            s.rfc3926 = true;
+            s.sct = false;
+        }
+        2 => {
+            s.fdt_start_id = 0xFFFFE;
+            s.toi_bits = 16;
+            s.toi_init = Some("65534".into());
+        }
+        _ => {}
+    }
     let spec = RecSpec { sess: s, objs: objs.clone(), polls_ms: POLLS.to_vec() };
     let rec = record(&spec)?;
     let mut cycle_start = Vec::new();
@@ -171,15 +190,20 @@ pub fn configs(thorough: bool) -> Vec<Cfg> {
                                         if with_empty && nobj == 1 && cenc != 0 {
                                             continue;
                                         }
-                                        v.push(Cfg { scheme, nobj, inband, cenc, interval, full_fdt, fdt_e, with_empty, count, interleave, fdt_cenc: 0, split_sig: false, inherit: false });
+                                        v.push(Cfg { scheme, nobj, inband, cenc, interval, full_fdt, fdt_e, with_empty, count, interleave, fdt_cenc: 0, split_sig: false, inherit: false, sess_var: 0 });
+                                        if count == 1 && interleave == 1 && fdt_e == 1424 {
+                                            for sess_var in [1u8, 2] {
+                                                v.push(Cfg { scheme, nobj, inband, cenc, interval, full_fdt, fdt_e, with_empty, count, interleave, fdt_cenc: 0, split_sig: false, inherit: false, sess_var });
+                                            }
+                                        }
                                         if cenc == 0 && count == 1 && interleave == 1 && !with_empty && fdt_e == 1424 {
-                                            v.push(Cfg { scheme, nobj, inband, cenc, interval, full_fdt, fdt_e, with_empty, count, interleave, fdt_cenc: 0, split_sig: false, inherit: true });
+                                            v.push(Cfg { scheme, nobj, inband, cenc, interval, full_fdt, fdt_e, with_empty, count, interleave, fdt_cenc: 0, split_sig: false, inherit: true, sess_var: 0 });
                                         }
                                         if cenc != 0 && count == 1 && interleave == 1 {
-                                            v.push(Cfg { scheme, nobj, inband, cenc, interval, full_fdt, fdt_e, with_empty, count, interleave, fdt_cenc: 0, split_sig: true, inherit: false });
+                                            v.push(Cfg { scheme, nobj, inband, cenc, interval, full_fdt, fdt_e, with_empty, count, interleave, fdt_cenc: 0, split_sig: true, inherit: false, sess_var: 0 });
                                         }
                                         if count == 1 && interleave == 1 && (thorough || fdt_e == 512) {
-                                            v.push(Cfg { scheme, nobj, inband, cenc, interval, full_fdt, fdt_e, with_empty, count, interleave, fdt_cenc: 1 + (nobj as u8 % 3), split_sig: false, inherit: false });
+                                            v.push(Cfg { scheme, nobj, inband, cenc, interval, full_fdt, fdt_e, with_empty, count, interleave, fdt_cenc: 1 + (nobj as u8 % 3), split_sig: false, inherit: false, sess_var: 0 });
                                         }
                                     }
                                 }
@@ -222,7 +246,14 @@ pub fn run(thorough: bool) -> i32 {
     let mut g = G::default();
     let mut maxc = 0;
     let mut refused = 0;
+    let mut per_scheme: std::collections::BTreeMap<String, (u64, u64)> = Default::default();
     for (c, (gg, found, err, n0)) in cfgs.iter().zip(res) {
+        let ps = per_scheme.entry(format!("{:?}", c.scheme)).or_default();
+        if err.is_some() {
+            ps.1 += 1;
+        } else {
+            ps.0 += 1;
+        }
         g.joins += gg.joins;
         g.joins_inside_fdt += gg.joins_inside_fdt;
         g.joins_inside_block += gg.joins_inside_block;
@@ -248,6 +279,10 @@ pub fn run(thorough: bool) -> i32 {
     rep.cov("exhaustive", true);
     rep.cov("configs", cfgs.len() as u64);
     rep.cov("configs_refused_by_add_object", refused);
+    rep.cov("configs_run_and_refused_per_scheme", json!(per_scheme));
+    for (k, v) in &per_scheme {
+        rep.guard(&format!("configs_run_{}", k), v.0);
+    }
     rep.cov("max_packets_in_first_cycle", maxc as u64);
     rep.guard("joins_inside_an_fdt_instance", g.joins_inside_fdt);
     rep.guard("joins_inside_a_source_block", g.joins_inside_block);
